@@ -30,6 +30,7 @@ def opOf (j : Json) : R LoopOp := do
   | .arr #[.str "unsub", c] => do pure (.unsub (← asNat c))
   | .arr #[.str "flush", c] => do pure (.flush (← asNat c))
   | .arr #[.str "fire", c] => do pure (.fire (← asNat c))
+  | .arr #[.str "lost", c] => do pure (.lost (← asNat c))
   | .arr #[.str "write", c, i, v] => do
     let o ← objOf (Json.arr #[i, v])
     pure (.write (← asNat c) o)
@@ -53,7 +54,7 @@ def jres : Res → Json
 
 /-- Steps of thread `loopT` (true = loop) up to and including its next shared access.
     `none`: the thread finished without another access. -/
-def advance (fix loopT : Bool) : Nat → Cfg → Cfg × Option String
+def advance (fix : Variant) (loopT : Bool) : Nat → Cfg → Cfg × Option String
   | 0, s => (s, none)
   | n + 1, s =>
     let (s', l) := if loopT then stepLoop fix s else stepWorker s
@@ -65,7 +66,7 @@ def advance (fix loopT : Bool) : Nat → Cfg → Cfg × Option String
     | .wr v => (s', some s!"{t}:W:{varName v}")
 
 /-- Run a thread to completion, collecting the accesses it still makes. -/
-def finishThread (fix loopT : Bool) : Nat → Cfg → List String → Cfg × List String
+def finishThread (fix : Variant) (loopT : Bool) : Nat → Cfg → List String → Cfg × List String
   | 0, s, acc => (s, acc)
   | n + 1, s, acc =>
     match advance fix loopT 1000000 s with
@@ -73,7 +74,9 @@ def finishThread (fix loopT : Bool) : Nat → Cfg → List String → Cfg × Lis
     | (s', some l) => finishThread fix loopT n s' (acc ++ [l])
 
 def handle (j : Json) : R Json := do
-  let fix ← getBool j "fix"
+  let recheck ← getBool j "fix"
+  let single := match getBool j "single" with | .ok b => b | .error _ => true
+  let fix : Variant := ⟨recheck, single⟩
   let v ← objOf (← getObj j "value")
   let cv ← match (← getObj j "cacheV") with
     | .null => pure none
